@@ -714,6 +714,152 @@ def fam_overlap_values(chk, da, tier):
     chk.traces_validated += len(cases) - len(mism)
 
 
+def fam_sliced_results(chk, da, tier):
+    """A SLICE of a windowed / scan result must be that slice of the full result.  The slice is a rewrite trigger (pushdown through
+    MapOverlap, sliding-window kernels, cumulative): the oracle is the full result computed first, then sliced by NumPy, which holds
+    for every block function.  Slices hug the two ends within depth + 1 cells (where the boundary strips live) and the block seams."""
+    rng = chk.rng
+    # directed: every boundary kind, depth 2 and 3, every short unit-step slice starting or ending within depth + 1 cells of an end
+    for kind in KINDS:
+        for d in (2, 3):
+            for c in ((5, 5), (3, 4, 3)):
+                n = sum(c)
+                a = data(rng, n)
+                y = da.map_overlap(stencil(d), da.from_array(a, chunks=(c,)), depth={0: d}, boundary={0: bval(kind)}, dtype="int64")
+                with warnings.catch_warnings():
+                    warnings.simplefilter("ignore")
+                    full = np.asarray(y.compute(scheduler="sync"))
+                spans = [(lo, lo + k) for lo in range(0, d + 2) for k in (1, 2)] + [(n - hi - k, n - hi) for hi in range(0, d + 2) for k in (1, 2)]
+                for lo, hi in spans:
+                    chk.count(f"sliced:directed:{kind}")
+                    chk.case(("sliced-directed", kind, d, c, lo, hi), nontrivial=True)
+                    desc = {"fn": "map_overlap", "chunks": c, "depth": d, "radius": d, "boundary": kind, "index": f"[{lo}:{hi}]", "data": a.tolist()}
+                    try:
+                        with warnings.catch_warnings():
+                            warnings.simplefilter("ignore")
+                            got = np.asarray(y[lo:hi].compute(scheduler="sync"))
+                    except Exception as e:  # noqa: BLE001
+                        chk.violation(f"a slice of a map_overlap result raises ({norm_err(e)}) although the full result computes", desc,
+                                      signature={"fn": "map_overlap", "class": "sliced-result-raises", "boundary": kind, "error": norm_err(e), "stepped": False})
+                        continue
+                    # boundary "none": cells within the stencil radius of an array END see no halo there (the roll wraps inside the block),
+                    # their value depends on the block extent and is outside the NumPy definition: compare the interior only
+                    keep = np.ones(hi - lo, dtype=bool) if kind != "none" else np.array([d <= p < n - d for p in range(lo, hi)], dtype=bool)
+                    if got.shape != full[lo:hi].shape or not np.array_equal(got[keep], full[lo:hi][keep]):
+                        chk.violation("a slice of a map_overlap result differs from the same slice of the full result",
+                                      {**desc, "impl": got.tolist(), "want": full[lo:hi].tolist()},
+                                      signature={"fn": "map_overlap", "class": "sliced-result-value", "boundary": kind, "stepped": False})
+                    else:
+                        chk.traces_validated += 1
+    for it in range(2500 if tier == "thorough" else 260):
+        two_d = rng.random() < 0.3
+        n = rng.choice([4, 5, 8, 13, 21, 40])
+        c = chunkings(rng, n)
+        kind = rng.choice(KINDS + ["periodic", "reflect"])
+        what = rng.choice(["map_overlap", "map_overlap", "map_overlap", "sliding-sum", "sliding-view", "cumsum", "moving"])
+        d = rng.choice([1, 2, 2, 3, min(max(c), 4)])
+        a = data(rng, n * (3 if two_d else 1)).reshape((n, 3) if two_d else (n,))
+        x = da.from_array(a, chunks=(c, (2, 1)) if two_d else (c,))
+        r = rng.randint(0, d)
+        try:
+            if what == "map_overlap":
+                if max(d, 1) > n:
+                    continue
+                f = stencil(r) if not two_d else (lambda b, _r=r: sum(np.roll(b, k, axis=0) for k in range(-_r, _r + 1)))
+                y = da.map_overlap(f, x, depth={0: d} if not two_d else {0: d, 1: 0}, boundary={0: bval(kind)} if not two_d else {0: bval(kind), 1: "none"}, dtype="int64")
+            elif what == "sliding-sum":
+                w = rng.randint(1, min(n, 6))
+                y = da.sliding_window_view(x, w, axis=0).sum(-1)
+            elif what == "sliding-view":
+                w = rng.randint(1, min(n, 4))
+                y = da.sliding_window_view(x, w, axis=0)
+            elif what == "cumsum":
+                y = da.cumsum(x, axis=0, method=rng.choice(["sequential", "blelloch"]))
+            else:
+                w = rng.randint(1, min(n, 5))
+                y = da.sliding_window_view(x, w, axis=0).max(-1)
+            with warnings.catch_warnings():
+                warnings.simplefilter("ignore")
+                full = np.asarray(y.compute(scheduler="sync"))
+        except Exception as e:  # noqa: BLE001
+            chk.count("sliced:construction-raises:" + what)
+            continue
+        m = full.shape[0]
+        edges = sorted({0, 1, 2, d - 1, d, d + 1, m - d - 1, m - d, m - d + 1, m - 2, m - 1, m} | set(np.cumsum(c).tolist()))
+        edges = [e for e in edges if 0 <= e <= m]
+        for _ in range(4):
+            lo = rng.choice(edges)
+            hi = rng.choice([e for e in edges if e >= lo] or [m])
+            step = rng.choice([1, 1, 1, 2, -1])
+            sl = slice(lo, hi, step) if step > 0 else slice(hi - 1 if hi > 0 else None, lo - 1 if lo > 0 else None, -1)
+            idx = (sl,) if rng.random() < 0.8 or full.ndim == 1 else (sl, rng.choice([0, slice(1, None)]))
+            chk.count(f"sliced:{what}" + (":" + kind if what == "map_overlap" else ""))
+            chk.case(("sliced", what, kind, c, d, r, repr(idx), two_d, it), nontrivial=len(c) > 1)
+            desc = {"fn": what, "chunks": c, "depth": d, "radius": r, "boundary": kind if what == "map_overlap" else None, "index": repr(idx),
+                    "two_d": two_d, "data": a.tolist()}
+            try:
+                with warnings.catch_warnings():
+                    warnings.simplefilter("ignore")
+                    got = np.asarray(y[idx].compute(scheduler="sync"))
+            except Exception as e:  # noqa: BLE001
+                chk.violation(f"a slice of a {what} result raises ({norm_err(e)}) although the full result computes",
+                              desc, signature={"fn": what, "class": "sliced-result-raises", "boundary": kind if what == "map_overlap" else None, "error": norm_err(e),
+                                         "stepped": step != 1})
+                continue
+            want = full[idx]
+            if what == "map_overlap" and kind == "none" and got.shape == want.shape:
+                # cells within the stencil radius of an array end are outside the definition under boundary "none" (see above)
+                pos = np.arange(m)[idx[0]]
+                keep = (pos >= r) & (pos < m - r)
+                got, want = got[keep], want[keep]
+            if got.shape != want.shape or not np.array_equal(got, want):
+                chk.violation(f"a slice of a {what} result differs from the same slice of the full result",
+                              {**desc, "impl": got.tolist(), "want": want.tolist()},
+                              signature={"fn": what, "class": "sliced-result-value", "boundary": kind if what == "map_overlap" else None, "stepped": step != 1})
+            else:
+                chk.traces_validated += 1
+
+
+def fam_sliding_multi_axis(chk, da, tier):
+    """sliding_window_view over SEVERAL axes, incl. an axis listed more than once (NumPy applies the windows one after the other):
+    advertised shape, block shapes and values against numpy.lib.stride_tricks.sliding_window_view"""
+    from numpy.lib.stride_tricks import sliding_window_view as np_swv
+    rng = chk.rng
+    for it in range(600 if tier == "thorough" else 70):
+        shape = (rng.choice([5, 7, 12, 20]), rng.choice([3, 4, 6]))
+        a = data(rng, shape[0] * shape[1]).reshape(shape)
+        chunks = (chunkings(rng, shape[0]), chunkings(rng, shape[1]))
+        k = rng.choice([1, 2, 2, 3])
+        axes = tuple(rng.choice([0, 0, 1, -1, -2]) for _ in range(k))
+        wins = tuple(rng.choice([1, 2, 2, 3]) for _ in range(k))
+        desc = {"fn": "sliding_window_view", "shape": shape, "chunks": chunks, "window_shape": wins, "axis": axes, "data": a.tolist()}
+        repeated = len({ax % 2 for ax in axes}) < len(axes)
+        chk.count("sliding-multi:" + ("repeated-axis" if repeated else "distinct-axes"))
+        chk.case(("sliding-multi", shape, chunks, wins, axes, it), nontrivial=True)
+        try:
+            want = np_swv(a, wins, axis=axes)
+        except Exception:  # noqa: BLE001
+            chk.count("sliding-multi:numpy-rejects")
+            continue
+        try:
+            with warnings.catch_warnings():
+                warnings.simplefilter("ignore")
+                y = da.sliding_window_view(da.from_array(a, chunks=chunks), wins, axis=axes)
+                adv = tuple(y.shape)
+                got = np.asarray(y.compute(scheduler="sync"))
+                blocks = real_blocks(y) if y.ndim == 1 else None
+        except Exception as e:  # noqa: BLE001
+            chk.violation("sliding_window_view raises for a window / axis tuple NumPy accepts: " + norm_err(e), desc,
+                          signature={"fn": "sliding_window_view", "class": "multi-axis-raises", "repeated": repeated, "error": norm_err(e)})
+            continue
+        if adv != want.shape or got.shape != want.shape or not np.array_equal(got, want):
+            chk.violation("sliding_window_view over several axes differs from NumPy (advertised shape, computed shape or values)",
+                          {**desc, "advertised": adv, "computed_shape": got.shape, "numpy_shape": want.shape},
+                          signature={"fn": "sliding_window_view", "class": "multi-axis-value", "repeated": repeated})
+        else:
+            chk.traces_validated += 1
+
+
 def _blocks_of(arr):
     """blocks of a 1-D dask array as it is defined (advertised grid), computed block by block"""
     from dask.local import get_sync
@@ -1415,6 +1561,8 @@ def run(chk: Check):
     fam_scan(chk, da, chk.tier)
     fam_overlap_struct(chk, da, chk.tier)
     fam_overlap_values(chk, da, chk.tier)
+    fam_sliced_results(chk, da, chk.tier)
+    fam_sliding_multi_axis(chk, da, chk.tier)
     fam_diff_gradient_values(chk, da, chk.tier)
     fam_diff_gradient(chk, da, chk.tier)
     fam_moving(chk, da, chk.tier)
